@@ -770,6 +770,12 @@ class Node:
         if new_parent._tree is not self._tree:
             raise NotImplementedError("Can only move nodes inside same tree")
 
+        if new_parent is self or new_parent.is_descendant_of(self):
+            raise ValueError(
+                f"Cannot move {self} below itself or one of its descendants "
+                f"({new_parent})"
+            )
+
         self._parent._children.pop(self._get_sibling_index())  # type: ignore
         if not self._parent._children:  # store None instead of `[]`
             self._parent._children = None
